@@ -333,23 +333,23 @@ class NameServer(object):
 
     def remove(self, name=None, prefix=None, regex=None):
         """Remove a registration. returns the number of items removed."""
-        if name and name in self.storage and name != core.NAMESERVER_NAME:
-            with self.lock:
+        with self.lock:
+            if name and name in self.storage and name != core.NAMESERVER_NAME:
                 del self.storage[name]
-            return 1
-        if prefix:
-            items = list(self.list(prefix=prefix).keys())
-            if core.NAMESERVER_NAME in items:
-                items.remove(core.NAMESERVER_NAME)
-            self.storage.remove_items(items)
-            return len(items)
-        if regex:
-            items = list(self.list(regex=regex).keys())
-            if core.NAMESERVER_NAME in items:
-                items.remove(core.NAMESERVER_NAME)
-            self.storage.remove_items(items)
-            return len(items)
-        return 0
+                return 1
+            if prefix:
+                items = list(self.list(prefix=prefix).keys())
+                if core.NAMESERVER_NAME in items:
+                    items.remove(core.NAMESERVER_NAME)
+                self.storage.remove_items(items)
+                return len(items)
+            if regex:
+                items = list(self.list(regex=regex).keys())
+                if core.NAMESERVER_NAME in items:
+                    items.remove(core.NAMESERVER_NAME)
+                self.storage.remove_items(items)
+                return len(items)
+            return 0
 
     # noinspection PyNoneFunctionAssignment
     def list(self, prefix=None, regex=None, return_metadata=False):
